@@ -125,6 +125,8 @@ def gen_run(seed, tier, i):
     reuse_structure = s_cfg.random() < 0.3
     def fresh_structure():
         x = s_struct.random()
+        if x < 0.004:
+            return structures.gen_large(s_struct, 300, 420)
         if x < 0.02:
             return structures.gen_large(s_struct, 30, 80)
         if x < 0.12:
